@@ -102,7 +102,7 @@ impl<const M: usize> Sim<M> {
                     self.v("C09", format!("{what}: a fallible method panicked: {msg}"));
                 } else {
                     self.st(St::AllocPanic);
-                    if !(msg.contains("out of memory") || msg.contains("capacity overflow") || msg.contains("overflow")) {
+                    if !(msg.contains("out of memory") || msg.contains("capacity overflow") || msg.contains("overflow") || msg.contains("encountered allocation error")) {
                         self.v("C09", format!("{what}: infallible method panicked with an unexpected message: {msg}"));
                     }
                 }
